@@ -166,7 +166,7 @@ static std::vector<std::string> hist_gen(const GenArgs &ga) {
     nops = 8 + (int)sw.below(thorough ? 73 : 43);
     maxlen = 14;
     mix = {{"new", 14}, {"compile", 24}, {"take", 9}, {"run", 14}, {"runc", 9}, {"freep", 9}, {"freec", 7},
-           {"reset", 7}, {"debug", 2}, {"append", 6}, {"rawalloc", sw.chance(1, 3) ? 8 : 0}};
+           {"reset", 7}, {"debug", 2}, {"append", 6}, {"rawalloc", sw.chance(1, 3) ? 8 : 0}, {"parse", use_corpus ? 6 : 0}};
   } else {  // C17
     oracles = "det";
     static const char *codes[] = {"-", "-", "-", "-", "debug"};
@@ -304,6 +304,10 @@ static std::vector<std::string> hist_gen(const GenArgs &ga) {
         int nf = 1 + (int)fr.below(2);
         for (int k = 0; k < nf; k++) l += " " + gen_fault(fr, 5);
       }
+    } else if (op == "parse") {
+      // text -> programs (+ error objects) -> free: the parser's own ownership rules, on valid and on
+      // mildly invalid text (unknown opcode, undefined variable, duplicate declaration, text cut short)
+      l += strf(" k=%d mut=%d at=%d errs=%d", (int)pr.below(100000), (int)pr.below(5), (int)pr.below(1000), (int)pr.below(2));
     } else if (op == "append") {
       // the program is edited after it was built (and possibly compiled): a valid extra instruction, or one
       // whose operand sizes do not match (the next compile must then fail fatally and leave nothing behind)
@@ -900,6 +904,41 @@ static void hist_run(const std::vector<std::string> &plan, Child &c) {
         if (!ok && !fatal && (os.fired || os.policy_failures)) c.count("probe.fallback_after_codemem_failure");
         if (ok && st.jit_forced_off && st.O("class"))
           c.violation("classification", "jit-after-failed-probe", "native code was produced although the init probe had failed");
+      } else if (op == "parse") {
+        if (corpus_size() == 0) { c.event("  skip"); continue; }
+        std::string text = corpus_text((int)kvi(w, "k"));
+        std::vector<std::string> lines = split(text, '\n');
+        std::vector<size_t> insn_lines, decl_lines;
+        for (size_t li = 0; li < lines.size(); li++) {
+          if (lines[li].empty()) continue;
+          if (lines[li][0] == '.') { if (li > 0) decl_lines.push_back(li); } else if (lines[li][0] != '#') insn_lines.push_back(li);
+        }
+        int mut = (int)kvi(w, "mut"), at = (int)kvi(w, "at");
+        if (mut == 1 && !insn_lines.empty()) {          // unknown opcode
+          std::string &ln = lines[insn_lines[at % insn_lines.size()]];
+          size_t sp = ln.find(' ');
+          if (sp != std::string::npos) ln = "nosuchopcode" + ln.substr(sp);
+        } else if (mut == 2 && !insn_lines.empty()) {   // undefined variable as last operand
+          std::string &ln = lines[insn_lines[at % insn_lines.size()]];
+          size_t cm = ln.rfind(',');
+          if (cm != std::string::npos) ln = ln.substr(0, cm + 1) + " undefinedvar9";
+        } else if (mut == 3 && !decl_lines.empty()) {   // declaration repeated
+          size_t li = decl_lines[at % decl_lines.size()];
+          lines.insert(lines.begin() + li, lines[li]);
+        } else if (mut == 4 && lines.size() > 3) {      // text cut short after a whole line
+          lines.resize(2 + at % (lines.size() - 2));
+        }
+        std::string src;
+        for (auto &ln : lines) src += ln + "\n";
+        OrcProgram **progs = nullptr;
+        int np = 0, ne = 0;
+        OrcParseError **errs = nullptr;
+        int rc = kvi(w, "errs") ? orc_parse_code(src.c_str(), &progs, &np, &errs, &ne) : orc_parse_code(src.c_str(), &progs, &np, nullptr, nullptr);
+        c.event("  parse mut=%d rc=%d programs=%d errors=%d", mut, rc, np, ne);
+        c.count(rc ? "op.parse_with_errors" : "op.parse_ok");
+        for (int k = 0; k < np; k++) orc_program_free(progs[k]);
+        free(progs);
+        if (errs) orc_parse_error_freev(errs);
       } else if (op == "append") {
         if (st.progs.empty()) { c.event("  skip"); continue; }
         Prog &p = st.progs[kvi(w, "p") % st.progs.size()];
